@@ -124,7 +124,7 @@ PROPS['C06'] = {
     'rule': ("BFS from GenericArray::into_iter() for every K in 0..=12 (thorough: also 13..=17, 31..=33 complete, 64, 100 and 255..=257 with the argument lattice "
              "{0,1,2,len-1,len,len+1,usize::MAX}) and element sizes 0/4/24 bytes; from every reachable state (origin fresh|clone-at-len, physical front index, len) every operation "
              "next, next_back, nth(k), nth_back(k) for k in 0..=len+2 and usize::MAX, clone, as_mut_slice()[j]=new for every j, plus the consuming operations fold, rfold, count, last, collect, "
-             "rev().collect, Debug, {:#?}, drop, exhaustion (fused), clone-then-drop; a case is one (state, operation); non-trivial = K>0 and the state still holds an element; "
+             "rev().collect, Debug, {:#?}, drop, exhaustion (fused), clone-then-drop, and fold / rfold whose closure unwinds at its k-th call (every k < len for len <= 8, else {0, len/2, len-1}: consumed and unconsumed elements must not overlap, i.e. the ledger balances after the unwinding); a case is one (state, operation); non-trivial = K>0 and the state still holds an element; "
              "descriptors are unique by construction. Every step is compared with std's array IntoIter and a VecDeque, and the drop ledger must balance after every call and at quiescence."),
     'exhaustive': True,
     'exhaustive_scope': 'all operations and arguments from all reachable states for the listed K; K axis itself is a lattice above 17',
